@@ -321,4 +321,32 @@ PROPS = {
         assumptions=["f64::min is IEEE minNum; Iterator::sum starts at -0.0",
                      "response tables are passed to the model inside each request (bit patterns of the built code's tables)"],
     ),
+    "C01": dict(
+        lean_modules=["AlphaG.Props.C01"],
+        required_theorems=["AlphaG.C01." + t for t in [
+            "adc_total", "adc_no_overflow", "alpha16_ids_total", "chunk_total", "chunk_accessors_total", "pwb_total",
+            "waveformAt_total", "decoded_chunk_valid", "pwbFromChunkBytes_total", "trg_total", "cbfifo_total",
+            "chronobox_ids_total"]],
+        harness=[(m, ["dev", "release"]) for m in ["c02", "c03", "c04", "c05", "c06", "c07"]],
+        disagreement_is_failing_input=False,
+        oracle_failing_regex=r"panic",
+        level_text="Every decoder is modelled panic-aware (each slice index, try_into().unwrap(), usize subtraction, unwrap() "
+                   "and assert is a guard yielding `panic site`) and Lean theorems state that `panic` is unreachable for every "
+                   "byte string of any length: ADC, PWB chunk and its unwrapping accessors, PWB packet from bytes, waveform_at, "
+                   "PWB packet from any list of chunk byte strings (composition theorem pwbFromChunkBytes_total), TRG, Chronobox "
+                   "FIFO (incl. winnow's own loop assertions and progress), id conversions; bank-name parsers on all strings are "
+                   "part of C08's module. usize intermediates are bounded (adc_no_overflow and the guards), so builds with and "
+                   "without overflow checks agree.",
+        level_note="The models are tied to the code by differential runs in BOTH a dev build (overflow checks on) and a release "
+                   "build (off) under catch_unwind, where any implementation panic is an oracle failure with the input as replay. "
+                   "Not covered: allocation failure / stack exhaustion, the crc32c and winnow crates' own totality (trusted), "
+                   "Display impls. Repaired defect F1 (ADC requested_samples - 2 underflow) is reported again if it returns.",
+        technique="Lean 4 totality theorems over panic-aware hand-written models + differential correspondence in dev and "
+                  "release builds under catch_unwind",
+        design_ref="DESIGN.md section 6, C01",
+        rule="union of the decoder generators of C02-C07 (valid builders, every single-field boundary substitution, every "
+             "truncation/extension and single-bit flip of small valid packets, random bytes with plausible prefixes, all cut "
+             "patterns of FIFO streams), each run in a dev and a release build; distinct by request line",
+        assumptions=["&[u8] lengths are <= isize::MAX"],
+    ),
 }
